@@ -273,7 +273,7 @@ def gen_item(rng, names, allow_bad):
         r = rng.random()
         a = {} if r < 0.15 else {"state": rng.random() < 0.5}
         if n == "fast_pred_var" and rng.random() < 0.7:
-            a["num_probe_vectors"] = rng.choice([1, 2, 5, 10])
+            a["num_probe_vectors"] = rng.choice([1, 2, 5, 10, 0, -1, 2.0])  # any value is accepted and must be scoped
             a.setdefault("state", rng.random() < 0.5)
         return [n, a]
     if n in VALUE_DEFAULTS:
@@ -349,7 +349,7 @@ def enum_items():
         if n in FLAG_DEFAULTS:
             items += [[n, {"state": True}], [n, {"state": False}]]
             if n == "fast_pred_var":
-                items += [[n, {"state": True, "num_probe_vectors": 5}], [n, {"state": False, "num_probe_vectors": 2}]]
+                items += [[n, {"state": True, "num_probe_vectors": 5}], [n, {"state": False, "num_probe_vectors": 2}], [n, {"state": True, "num_probe_vectors": 0}]]
         elif n in VALUE_DEFAULTS:
             if n == "observation_nan_policy":
                 items += [[n, {"value": "mask"}], [n, {"value": "fill"}]]
